@@ -43,7 +43,8 @@ Record case := {
 Definition mk_world (c : case) : world :=
   {| w_s := fun n => match assoc_nat n (c_s c) with Some b => b | None => BRetry end;
      w_c := fun n => match assoc_nat n (c_c c) with Some b => b | None => CNone end;
-     w_env := fun n => assoc_nat n (c_env c) |}.
+     w_env := fun n => assoc_nat n (c_env c);
+     w_guard := fun _ => false |}.             (* sm.stop() is called directly *)
 
 Definition obs_ok (before after : sm) (o : obs) : bool :=
   let n := length (trace after) - length (trace before) in
@@ -87,6 +88,8 @@ Record hobs := {
 
 Record hcase := {
   h_s : list (nat * sbeh);
+  h_c : list (nat * cbeh);          (* what the cleanup function called at hook n returned (on_cleanup: None) *)
+  h_env : list (nat * task);        (* start_machine / an effective stop_machine call at hook n *)
   h_scode : list (sid * Z);
   h_ops : list hop;
   h_obs : list hobs;
@@ -94,8 +97,9 @@ Record hcase := {
 
 Definition hworld (c : hcase) : world :=
   {| w_s := fun n => match assoc_nat n (h_s c) with Some b => b | None => BRetry end;
-     w_c := fun _ => CNone;          (* on_cleanup returns None *)
-     w_env := fun _ => None |}.
+     w_c := fun n => match assoc_nat n (h_c c) with Some b => b | None => CNone end;
+     w_env := fun n => assoc_nat n (h_env c);
+     w_guard := fun _ => true |}.    (* stop_machine: only when active *)
 
 Definition gcodes : codes := {| c_idle := status_idle; c_busy := status_busy; c_error := status_error |}.
 
@@ -110,7 +114,7 @@ Fixpoint hrun_check (c : hcase) (h : hs) (ops : list hop) (os : list hobs) : boo
   match ops, os with
   | [], [] => true
   | o :: ops', ob :: os' =>
-      let h' := hstep gcodes (fun f => assoc_nat f (h_scode c)) start_resets_idle_status (hworld c) maxloops outer_rounds h o in
+      let h' := hstep gcodes (fun f => assoc_nat f (h_scode c)) start_resets_idle_status start_assigns_idle_status (hworld c) maxloops outer_rounds h o in
       hobs_ok h h' ob && hrun_check c h' ops' os'
   | _, _ => false
   end.
@@ -122,14 +126,14 @@ Definition check_any (a : anycase) : bool :=
   match a with CCore c => check_case c | CHs c => check_hcase c end.
 
 Definition hmodel_status (c : hcase) : list status :=
-  rev (log (hrun gcodes (fun f => assoc_nat f (h_scode c)) start_resets_idle_status (hworld c) maxloops outer_rounds (h_ops c))).
+  rev (log (hrun gcodes (fun f => assoc_nat f (h_scode c)) start_resets_idle_status start_assigns_idle_status (hworld c) maxloops outer_rounds (h_ops c))).
 
 (* per-op view of the model, for diagnosis *)
 Fixpoint hmodel_steps_from (c : hcase) (h : hs) (ops : list hop) : list (status * option status * list status * option sid * option nat) :=
   match ops with
   | [] => []
   | o :: ops' =>
-      let h' := hstep gcodes (fun f => assoc_nat f (h_scode c)) start_resets_idle_status (hworld c) maxloops outer_rounds h o in
+      let h' := hstep gcodes (fun f => assoc_nat f (h_scode c)) start_resets_idle_status start_assigns_idle_status (hworld c) maxloops outer_rounds h o in
       (st h', idle h', rev (firstn (length (log h') - length (log h)) (log h')), statefunc (core h'),
        option_map task_id (next_task (core h'))) :: hmodel_steps_from c h' ops'
   end.
